@@ -1,8 +1,8 @@
 (* GenEq/Fb_deframe.v — tie T1: the definition regenerated from /repo (Gen/FbGen.v, untracked, rebuilt on every run by rs2v + vlib/translate.py)
    equals the model definition the theorems are about. *)
-From FB Require Import Sem.Base Model.Fb GenEq.Tac.
+From FB Require Import Sem.Base Model.Fb Facets.Fb GenEq.Tac.
 From FB Require Gen.FbGen.
 Open Scope Z_scope.
 
-Lemma gen_eq : forall chk df s, FbGen.deframe chk df s = Fb.deframe chk df s.
+Lemma gen_eq : forall SIZE chk df s, Inv SIZE s -> FbGen.deframe SIZE chk df s = Fb.deframe chk df s.
 Proof. gen_eq. Qed.
